@@ -47,7 +47,8 @@ def handle (ln : String) : Out :=
         -- (length − 1) would differ, both verdicts are admitted
         let maxs := if len ≤ mx then ["1"] else if sz ≤ mx then ["0", "1"] else ["0"]
         fees.flatMap fun fv => maxs.map fun m => line sz mf fv m
-      { model := model, spec := "||".intercalate alts }
+      -- a transaction the decoder refuses is not accepted: never a violation
+      { model := model, spec := "||".intercalate (alts ++ ["decode-err"]) }
     | _, _, _, _, _, _, _ => badOp
   | _ => badOp
 
